@@ -87,8 +87,26 @@ var capChoices = []uint64{1000, 12345, 1 << 40, 1 << 63, math.MaxUint64, 0, 100}
 
 func (g *srvGen) freshAuth(id uint32, k Key) glow.EquipmentAuthorization {
 	lats := []float64{38, -0.0, 0, 5e-324, -89.999, 8.9e307, 12.345678}
+	// the expiration is a signed field the server stores and never interprets: values in the past, at the
+	// current slot and at the ends of its range are as good as any other
+	exp := uint32(g.r.Next())
+	now := glow.CurrentTimeslot()
+	switch g.r.Intn(8) {
+	case 0:
+		exp = 0
+	case 1:
+		exp = now
+	case 2:
+		if now > 0 {
+			exp = now - 1 - uint32(g.r.Intn(int(now)))
+		}
+	case 3:
+		exp = now + 1
+	case 4:
+		exp = math.MaxUint32
+	}
 	return glow.EquipmentAuthorization{ShortID: id, PublicKey: k.Pub, Latitude: lats[g.r.Intn(len(lats))], Longitude: lats[g.r.Intn(len(lats))],
-		Capacity: capChoices[g.r.Intn(len(capChoices))], Debt: uint64(g.r.Intn(1000)), Expiration: uint32(g.r.Next()), Initialization: uint32(g.r.Intn(5)), ProtocolFee: g.r.Next()}
+		Capacity: capChoices[g.r.Intn(len(capChoices))], Debt: uint64(g.r.Intn(1000)), Expiration: exp, Initialization: uint32(g.r.Intn(5)), ProtocolFee: g.r.Next()}
 }
 
 func (g *srvGen) signer(kind int) glow.PrivateKey {
@@ -108,11 +126,18 @@ func (g *srvGen) opAuthorize() {
 	r := g.r
 	if g.regDone && r.Chance(4) {
 		// a valid authorization for a brand-new device while the log cannot be written
+		if len(g.authsSeen) > 0 && r.Chance(50) {
+			// ... or a valid conflicting authorization (it would ban the id): refused, and no ban either
+			ea := g.authsSeen[r.Intn(len(g.authsSeen))]
+			ea.Debt += 1 + uint64(r.Intn(9))
+			g.s.AuthorizeFault(SignAuth(ea, g.s.E.GCA.Priv))
+			return
+		}
 		g.s.AuthorizeFault(SignAuth(g.freshAuth(uint32(20+r.Intn(5)), detKey(g.seed, 300+r.Intn(5))), g.s.E.GCA.Priv))
 		return
 	}
 	var ea glow.EquipmentAuthorization
-	kind := r.pick([]int{30, 15, 20, 8, 12, 8, 7})
+	kind := r.pick([]int{30, 15, 20, 8, 12, 8, 7, 4})
 	switch {
 	case kind == 0 || len(g.authsSeen) == 0: // new device
 		ea = SignAuth(g.freshAuth(uint32(r.Intn(5)), g.keys[r.Intn(len(g.keys))]), g.s.E.GCA.Priv) // id 0 is a legal id
@@ -148,6 +173,16 @@ func (g *srvGen) opAuthorize() {
 	case kind == 5: // valid signature, then one bit of the signed content flipped
 		ea = g.authsSeen[r.Intn(len(g.authsSeen))]
 		ea.Debt ^= 1 << uint(r.Intn(64))
+	case kind == 7: // an authorization seen before with the high-s twin of its signature: anybody can make it, nobody's key is needed
+		ea = g.authsSeen[r.Intn(len(g.authsSeen))]
+		tw := Malleate(ea.Signature)
+		obs := "ok"
+		if glow.Verify(g.s.E.GCA.Pub, ea.SigningBytes(), ea.Signature) && glow.Verify(g.s.E.GCA.Pub, ea.SigningBytes(), tw) {
+			obs = "FAILED"
+		}
+		g.s.T.Count("crypto.twin-authorization")
+		g.s.T.Line("crypto.check what=high-s-twin-of-a-valid-signature-verifies => %s", obs)
+		ea.Signature = tw
 	default: // same content re-signed: identical for the deterministic signer, a different valid signature with a fresh nonce
 		ea = g.authsSeen[r.Intn(len(g.authsSeen))]
 		if r.Chance(50) {
@@ -591,6 +626,11 @@ func (g *srvGen) opMigrate() {
 		em.NewServers = append(em.NewServers, as)
 	}
 	em.Signature = glow.Sign(em.SigningBytes(), g.signer(r.pick([]int{80, 8, 6, 6})))
+	if r.Chance(12) {
+		// signed by a GCA that earlier orders handed equipment to: it has no say on this server
+		em.Signature = glow.Sign(em.SigningBytes(), detKey(g.seed, 700+r.Intn(2)).Priv)
+		g.s.T.Count("migrate:signed-by-a-new-gca")
+	}
 	g.s.Migrate(em)
 }
 
@@ -934,8 +974,8 @@ func (g *srvGen) opTear() error {
 // weights per focus: dgram, authorize, clock, tick, restart, stats, sync, authserver, migrate, register, impact, rotate
 var focusWeights = map[string][]int{
 	"C01": {70, 6, 8, 2, 1, 3, 3, 1, 1, 1, 1, 1},
-	"C02": {75, 5, 6, 2, 1, 4, 3, 0, 0, 0, 1, 1},
-	"C03": {30, 6, 14, 8, 5, 22, 2, 0, 0, 0, 6, 4, 0, 1},
+	"C02": {75, 5, 6, 2, 1, 4, 3, 0, 2, 0, 1, 1},
+	"C03": {30, 6, 14, 8, 5, 22, 2, 0, 3, 0, 6, 4, 0, 1},
 	"C04": {30, 14, 10, 4, 18, 6, 3, 2, 2, 3, 2, 3, 0, 1},
 	"C06": {20, 45, 4, 1, 8, 4, 6, 1, 1, 2, 1, 1},
 	"C07": {6, 25, 2, 0, 12, 1, 2, 10, 8, 30, 0, 0},
@@ -1036,6 +1076,18 @@ func runSrvScenario(focus string, seed uint64, size int, t *Trace) error {
 		// most scenarios register right away
 		g.opRegister()
 	}
+	if (focus == "C17" || focus == "C10") && g.regDone {
+		// these histories are about server lists and migration orders; a device is there from the start, so that
+		// sync replies (which carry both) exist
+		ea := SignAuth(g.freshAuth(1, g.keys[0]), s.E.GCA.Priv)
+		if s.Authorize(ea, false) == "new" {
+			g.devs = append(g.devs, devInfo{1, g.keys[0], ea})
+		}
+		g.authsSeen = append(g.authsSeen, ea)
+	}
+	if focus == "C17" && g.regDone && seed%8 == 3 {
+		g.opBulkServers()
+	}
 	if focus == "C04" && g.regDone && seed%32 == 5 {
 		// a long-lived server: thousands of accepted reports, and every restart appends the in-window ones
 		// again, so after a few restarts the report log is well over a mebibyte
@@ -1075,7 +1127,11 @@ func runSrvScenario(focus string, seed uint64, size int, t *Trace) error {
 		}
 		switch k {
 		case 0:
-			g.opDgram()
+			if (focus == "C01" || focus == "C13") && r.Chance(4) {
+				g.opClockWhileQueued()
+			} else {
+				g.opDgram()
+			}
 		case 1:
 			g.opAuthorize()
 		case 2:
@@ -1111,6 +1167,9 @@ func runSrvScenario(focus string, seed uint64, size int, t *Trace) error {
 				s.TCPShort(r.Bytes(r.Intn(4)))
 			} else {
 				id := uint32(r.Intn(8))
+				if len(g.devs) > 0 && r.Chance(60) {
+					id = g.devs[r.Intn(len(g.devs))].id // a device the server knows: the reply carries the whole server list
+				}
 				s.Sync(id)
 			}
 		case 7:
@@ -1147,6 +1206,9 @@ func runSrvScenario(focus string, seed uint64, size int, t *Trace) error {
 			}
 		}
 	}
+	if (focus == "C12" || focus == "C13") && !s.Lost && s.E.S != nil && r.Chance(25) {
+		g.opPeerHang()
+	}
 	if !s.Lost {
 		s.Snap()
 		s.Disk()
@@ -1154,13 +1216,31 @@ func runSrvScenario(focus string, seed uint64, size int, t *Trace) error {
 	if focus == "C12" && !s.Lost && s.E.S != nil && r.Chance(20) {
 		// connections left idle or half-sent on the sync port must not hold the shutdown for longer than the
 		// server's own shutdown bound (5 s in this build; the handler gives a connection half of it)
-		_, tcp, _ := s.E.S.Ports()
+		httpPort, tcp, _ := s.E.S.Ports()
 		n := 1 + r.Intn(3)
 		var conns []net.Conn
 		for i := 0; i < n; i++ {
 			if c, err := net.DialTimeout("tcp", fmt.Sprintf("127.0.0.1:%d", tcp), 2*time.Second); err == nil {
 				if r.Chance(50) {
 					c.Write(r.Bytes(1 + r.Intn(3)))
+				}
+				conns = append(conns, c)
+			}
+		}
+		// the same on the HTTP port: a connection that says nothing, one that stops inside the request
+		// header, one that sends a complete header and then only part of the announced body
+		for i, n := 0, r.Intn(3); i < n; i++ {
+			if c, err := net.DialTimeout("tcp", fmt.Sprintf("127.0.0.1:%d", httpPort), 2*time.Second); err == nil {
+				paths := []string{"/api/v1/authorize-equipment", "/api/v1/register-gca", "/api/v1/authorized-servers", "/api/v1/equipment-migrate"}
+				switch r.Intn(3) {
+				case 0:
+					t.Count("shutdown-http-idle")
+				case 1:
+					fmt.Fprintf(c, "POST %s HTTP/1.1\r\nHost: x\r\nContent-Le", paths[r.Intn(len(paths))])
+					t.Count("shutdown-http-half-header")
+				default:
+					fmt.Fprintf(c, "POST %s HTTP/1.1\r\nHost: x\r\nContent-Type: application/json\r\nContent-Length: %d\r\n\r\n{\"ShortID\":", paths[r.Intn(len(paths))], 200+r.Intn(5000))
+					t.Count("shutdown-http-half-body")
 				}
 				conns = append(conns, c)
 			}
@@ -1235,7 +1315,7 @@ func runMany(child []string, base uint64, n int, par int, size int, out *os.File
 				panicLine = l
 			}
 			if strings.HasPrefix(l, "scenario ") || strings.HasPrefix(l, "srv.") || strings.HasPrefix(l, "v ") || strings.HasPrefix(l, "# ") ||
-				strings.HasPrefix(l, "el.") || strings.HasPrefix(l, "rl.") || strings.HasPrefix(l, "c14.") || strings.HasPrefix(l, "c08.") || strings.HasPrefix(l, "c05.") || strings.HasPrefix(l, "crypto.") || strings.HasPrefix(l, "codec.") || strings.HasPrefix(l, "ts.") || strings.HasPrefix(l, "cl.") {
+				strings.HasPrefix(l, "el.") || strings.HasPrefix(l, "rl.") || strings.HasPrefix(l, "c14.") || strings.HasPrefix(l, "c08.") || strings.HasPrefix(l, "c11.") || strings.HasPrefix(l, "c05.") || strings.HasPrefix(l, "crypto.") || strings.HasPrefix(l, "codec.") || strings.HasPrefix(l, "ts.") || strings.HasPrefix(l, "cl.") {
 				keep = append(keep, l)
 			}
 		}
